@@ -24,7 +24,8 @@ RULE = (
     'aligned or offset by a quarter step, starting one step before / at / '
     'after the rain record, with every sample count from 2 up to two samples '
     'past the end of the rain record, and every mask of missing interior '
-    'samples up to the stated number; ET starting at or before the grid and '
+    'samples up to the stated number, and for single holes also with every '
+    'later sample a quarter step late (logger restarted out of phase); ET starting at or before the grid and '
     'ending at or after the closing instant; rows sorted, reversed or '
     'rotated; zone UTC, Africa/Lagos, or Europe/Amsterdam with the rainfall '
     'record starting at a daylight-saving transition.  Oracle = reference loader in '
@@ -82,7 +83,12 @@ def geometries(n, ratio, max_missing):
                 interior = list(range(1, m - 1))
                 for k in range(0, max_missing + 1):
                     for miss in itertools.combinations(interior, k):
-                        out.append((offset, start_shift, m, miss))
+                        out.append((offset, start_shift, m, miss, 0))
+                        if k == 1:
+                            # the logger comes back out of phase: every
+                            # sample after the hole is a quarter step late
+                            out.append((offset, start_shift, m, miss,
+                                        lstep // 4))
     _GEOM[key] = out
     return out
 
@@ -96,10 +102,11 @@ def space_for(n, ratio, max_missing, cli=False):
         i //= len(VARIANTS)
         et = i % 4
         i //= 4
-        offset, start_shift, m, miss = geo[i]
+        offset, start_shift, m, miss, rephase = geo[i]
         return {'kind': 'cli' if cli else 'db', 'n': n, 'ratio': ratio,
                 'offset': offset, 'start_shift': start_shift, 'm': m,
-                'missing': list(miss), 'et_early': et & 1,
+                'missing': list(miss), 'restart_late_by': rephase,
+                'et_early': et & 1,
                 'et_late': (et >> 1) & 1, 'order': VARIANTS[v][0],
                 'zone': VARIANTS[v][1]}
     return Space('%s/n=%d/level-step=%s x rain step/missing<=%d' % (
@@ -132,7 +139,11 @@ def build(case):
     t0 = T0_DST if case['zone'] not in ZONE_OFFSET else records.T0_DEFAULT
     rain = [(t0 + k * DT, 0.5 + k) for k in range(n)]
     start = t0 + case['start_shift'] * DT + case['offset']
-    level = [(start + j * lstep, 100.0 + 0.25 * j * j - 3.0 * j)
+    late = case.get('restart_late_by') or 0
+    first_hole = min(case['missing']) if case['missing'] else None
+    level = [(start + j * lstep + (late if first_hole is not None
+                                   and j > first_hole else 0),
+              100.0 + 0.25 * j * j - 3.0 * j)
              for j in range(case['m']) if j not in case['missing']]
     lo, hi = level[0][0], level[-1][0]
     inside = [t for t, _ in rain if lo <= t <= hi]
